@@ -345,6 +345,18 @@ static void fire_due(void)
 	proc_events();
 }
 
+/* nanoseconds of a timespec; anything beyond ~126 years is "never" (and does not overflow) */
+#define TS_NEVER_SEC	4000000000LL
+static int64_t ts_ns_clamped(const struct timespec *ts)
+{
+	if ((int64_t)ts->tv_sec >= TS_NEVER_SEC)
+		return TS_NEVER_SEC * 1000000000LL;
+	return (int64_t)ts->tv_sec * 1000000000LL + ts->tv_nsec;
+}
+
+static int64_t next_deadline(void);
+int64_t simk_next_deadline(void) { return next_deadline(); }
+
 static int64_t next_deadline(void)
 {
 	int64_t next = -1, p;
@@ -1067,8 +1079,7 @@ int simk_epoll_pwait2(int epfd, struct epoll_event *ev, int max, const struct ti
 		errno = EINVAL;		/* as the kernel does for an invalid time-out */
 		return -1;
 	}
-	return do_wait(PRIM_EPOLL_PWAIT2, epfd, ev, max, NULL, 0,
-		       ts ? ts->tv_sec * 1000000000LL + ts->tv_nsec : -1);
+	return do_wait(PRIM_EPOLL_PWAIT2, epfd, ev, max, NULL, 0, ts ? ts_ns_clamped(ts) : -1);
 }
 
 int simk_poll(struct pollfd *fds, nfds_t n, int ms)
@@ -1091,8 +1102,7 @@ int simk_ppoll(struct pollfd *fds, nfds_t n, const struct timespec *ts, const si
 		errno = EINVAL;
 		return -1;
 	}
-	return do_wait(PRIM_PPOLL, -1, NULL, 0, fds, (int)n,
-		       ts ? ts->tv_sec * 1000000000LL + ts->tv_nsec : -1);
+	return do_wait(PRIM_PPOLL, -1, NULL, 0, fds, (int)n, ts ? ts_ns_clamped(ts) : -1);
 }
 
 /* ---- descriptor ledger ---------------------------------------------------- */
@@ -1211,7 +1221,7 @@ int simk_timerfd_settime(int fd, int flags, const struct itimerspec *v, struct i
 	}
 	while (syscall(SYS_read, fd, &c, 8L) == 8)
 		;
-	e = v->it_value.tv_sec * 1000000000LL + v->it_value.tv_nsec;
+	e = ts_ns_clamped(&v->it_value);
 	if (e == 0) {
 		tfd[i].expiry = -1;
 		simk_stats.timerfd_cleared++;
